@@ -1,5 +1,5 @@
 (* C02 — Reconciliation converges to exactly the desired pods and then goes quiet.  Statements only. *)
-From ASTS Require Import Base Slots Names World Reconcile ReconcileCheck PlanProofs ReconcileProofs ConvergeProofs Env TerminationProofs QuietProofs ExampleWorld.
+From ASTS Require Import Base Slots Names World Reconcile ReconcileCheck PlanProofs ReconcileProofs ConvergeProofs Env TerminationProofs QuietProofs CounterProofs ConvergedStatus TerminationEnv ExampleWorld.
 
 (* pods_converged s upd cnt slots pods (ConvergeProofs.v): every desired ordinal holds a pod that is created,
    not failed/succeeded, Running and Ready, not terminating, with identity and storage in order, and — when the
@@ -74,6 +74,40 @@ Theorem C02_pod_phase_converges :
       /\ (forall m, run s upd cnt slots curs (k + m) pods = run s upd cnt slots curs k pods).
 Proof. exact rounds_converge. Qed.
 Print Assumptions C02_pod_phase_converges.
+
+(* (3b') ... and the status the pod phase computes there says replicas = readyReplicas = spec.replicas (guard:
+   no int32 wrap of the range counter; the pods are listed once each, as an API list does). *)
+Theorem C02_pod_phase_converges_with_status :
+  forall s upd r cnt slots,
+    s_replicas s = Some r -> 0 <= r -> r + Z.of_nat (length (get_slots (s_slots s))) <= max_i32 ->
+    extend r (get_slots (s_slots s)) = (cnt, slots) ->
+    0 <= cnt <= max_i32 + 1 -> s_deleting s = false -> NoDup (s_claims s) ->
+    (forall i, use_current s i = true -> i < umin_of s) ->
+    forall pods, wf s cnt slots pods -> NoDup pods -> forall curs : nat -> rinfo,
+    exists k, Z.of_nat k <= mu s upd cnt slots pods
+      /\ pods_converged s upd cnt slots (run s upd cnt slots curs k pods)
+      /\ (forall m, run s upd cnt slots curs (k + m) pods = run s upd cnt slots curs k pods)
+      /\ (forall cur coll po, plan_pods s cur upd coll (run s upd cnt slots curs k pods) = Some po ->
+            po_acts po = [] /\ st_replicas (po_status po) = r /\ st_ready (po_status po) = r).
+Proof. exact rounds_converge_with_status. Qed.
+Print Assumptions C02_pod_phase_converges_with_status.
+
+(* (3b'') the same for ANY environment: along every sequence of snapshots in which each snapshot is duplicate-free
+   and has the members of the round of its predecessor (estep: the order of an API list, or the order in which the
+   executor and the kubelet touched the pods, does not matter), a snapshot within the first mu(pods)+1 is
+   converged, and every later one is converged with the same members and an empty plan. *)
+Theorem C02_pod_phase_converges_any_environment :
+  forall s upd cnt slots,
+    0 <= cnt <= max_i32 + 1 -> s_deleting s = false -> NoDup (s_claims s) ->
+    (forall i, use_current s i = true -> i < umin_of s) ->
+    forall (P : nat -> list pod) (curs : nat -> rinfo),
+    wf s cnt slots (P O) -> NoDup (P O) ->
+    (forall k, estep s upd cnt slots (curs k) (P k) (P (S k))) ->
+    exists k, Z.of_nat k <= mu s upd cnt slots (P O)
+      /\ forall m, (k <= m)%nat -> pods_converged s upd cnt slots (P m) /\ same_members (P m) (P k)
+                                /\ forall cur, plan_acts s cur upd cnt slots (P m) = [].
+Proof. exact env_rounds_converge. Qed.
+Print Assumptions C02_pod_phase_converges_any_environment.
 
 Theorem C02_defaulted_spec :
   forall s, (String.eqb (s_strategy s) "RollingUpdate" = true -> s_rolling s <> None) ->
